@@ -1211,6 +1211,11 @@ func (r *Run) chainExact(B *OResp, e *Exch) bool {
 		if s.Fault != "" && s.Kind != "get" && s.Seq > B.SeqResp && s.Seq < e.SeqInv {
 			return false // a write the store refused: what is stored is not what the history says was written
 		}
+		if s.Fault == "notexist" && s.Kind == "get" && s.Seq > B.SeqResp && s.Seq < e.SeqInv {
+			// the store claimed that a key does not exist: if that was the index re-read after a 304, the cache
+			// takes the URI for invalidated meanwhile and does not write the freshened response back
+			return false
+		}
 	}
 	began := func(c *UpCall) uint64 {
 		if x := r.exchFor(c.Owner, c.OwnerOp); x != nil && x.SeqInv != 0 && x.SeqInv < c.SeqStart {
